@@ -43,11 +43,11 @@ MUT=[
  ("c10-copy-after-rotation-check", "the event is not copied when the payload is a pointer to a string", F, 'dup, err := copystructure.Copy(e)\n\tif err != nil {\n\t\treturn nil, err\n\t}\n\te = dup.(*eventlogger.Event)', 'if _, isStr := e.Payload.(*string); !isStr {\n\t\tdup, err := copystructure.Copy(e)\n\t\tif err != nil {\n\t\t\treturn nil, err\n\t\t}\n\t\te = dup.(*eventlogger.Event)\n\t}', ["C10"]),
  ("c10-created-at", "the forwarded event gets a fresh creation time", F, '\te = dup.(*eventlogger.Event)\n', '\te = dup.(*eventlogger.Event)\n\te.CreatedAt = e.CreatedAt.Add(1)\n', ["C10"]),
  ("c10-map-ptr-struct-value", "a pointer to a struct in a map is stored back by value", M, 'if fPtr {\n\t\t\t\t\tf = f.Addr()\n\t\t\t\t}\n\t\t\t\tv.SetMapIndex(key, f)', 'v.SetMapIndex(key, f)', ["C10"]),
- ("c16-ewi-info-from-salt", "Process hands the per-event salt as per-event info", F, 'opts = append(opts, WithInfo(i.HmacInfo()))', 'opts = append(opts, WithInfo(i.HmacSalt()))', ["C16"]),
+ ("c16-ewi-info-from-salt", "Process hands the per-event salt as per-event info", F, 'opts = append(opts, WithInfo(info))', 'opts = append(opts, WithInfo(salt))', ["C16"]),
  ("c16-rotpayload-empty-info", "a rotation payload with an empty (non-nil) info does not rotate the info", F, 'if i.HmacInfo() != nil {', 'if len(i.HmacInfo()) > 0 {', ["C16"]),
  ("c16-rotate-wrapper-with-salt", "Rotate takes the wrapper only together with a salt", F, 'if opts.withWrapper != nil {\n\t\tef.Wrapper = opts.withWrapper', 'if opts.withWrapper != nil && opts.withSalt != nil {\n\t\tef.Wrapper = opts.withWrapper', ["C16"]),
  ("c16-eventid-truncated", "NewEventWrapper derives from the event id without its last character", W, 'NewDerivedReader(ctx, wrapper, 32, []byte(eventId), nil)', 'NewDerivedReader(ctx, wrapper, 32, []byte(eventId[:len(eventId)-1]), nil)', ["C16"]),
- ("c16-hmac-info-default", "hmacSha256 uses the filter's info although the event supplies one, when the filter has a salt", F, 'case opts.withInfo != nil:\n\t\tinfo = make([]byte, len(opts.withInfo))', 'case opts.withInfo != nil && opts.withSalt != nil:\n\t\tinfo = make([]byte, len(opts.withInfo))', ["C16"]),
+ ("c16-hmac-info-default", "hmacSha256 uses the filter's info although the event supplies one, when the filter has a salt", F, 'case opts.withInfo != nil:\n\t\tinfo = make([]byte, len(opts.withInfo))', 'case opts.withInfo != nil && len(ef.HmacSalt) == 0:\n\t\tinfo = make([]byte, len(opts.withInfo))', ["C16"]),  # was '&& opts.withSalt != nil': equivalent since Process resolves salt AND info for every event with wrapper info (F13)
 ]
 def sh(cmd, cwd=None, timeout=1200):
     p=subprocess.run(cmd,cwd=cwd,env=ENV,stdout=subprocess.PIPE,stderr=subprocess.STDOUT,text=True,timeout=timeout,shell=isinstance(cmd,str))
